@@ -378,7 +378,7 @@ Proof.
 Qed.
 
 (* ================================================================================================================
-   stage 5 (the sound part): rotate_layer, scroll_area_up / down over the whole layer width *)
+   stage 5: rotate_layer, scroll_area_up / down (whole layer width: the scroll records; part of it: the snapshot frame) *)
 Lemma x_rotate_layer_sound rtab e e' : x_rotate_layer rtab e = Ok e' -> xedit_chain e e'.
 Proof.
   intro H. unfold x_rotate_layer in H. destruct (nth_error (xlayers (cur e)) (curl (xb (cur e)))) as [L|] eqn:Hn; [|discriminate].
@@ -390,15 +390,15 @@ Proof.
   xfinish H E1 C1.
 Qed.
 
-Lemma x_scroll_area_whole_sound up e e' : x_scroll_area_whole up e = Ok e' -> xedit_chain e e'.
+Lemma x_scroll_area_ud_sound up e e' : x_scroll_area_ud up e = Ok e' -> xedit_chain e e'.
 Proof.
-  intro H. unfold x_scroll_area_whole in H. eapply xguarded_chain; [|exact H]. clear H e'. set (e0 := mkEs (cur e) (ustk e) []).
+  intro H. unfold x_scroll_area_ud in H. eapply xguarded_chain; [|exact H]. clear H e'. set (e0 := mkEs (cur e) (ustk e) []).
   intros e2 Hb. cbv beta in Hb.
   destruct (get_cur_layer (xb (cur e0))) as [[i L]|] eqn:Ec; [|discriminate].
   destruct (get_cur_layer_some _ _ _ Ec) as [Hn _].
   destruct (get_area (sel (xb (cur e0))) L) as [[[ax ay] aw] ah].
   destruct (rect_is_empty (0, 0, aw, ah)); [injection Hb as <-; apply xchain_refl|].
-  destruct (l_w L <=? aw); [|discriminate].
+  destruct (l_w L <=? aw); [|eapply lift_edit_sound; [apply area_body_scroll_ud_sound|exact Hb]].
   destruct up.
   - destruct (xpush_sound _ _ e0 (XScrollUp i) (with_xb (cur e0) (upd_layer (xb (cur e0)) i l_scroll_up)) (xstable_lclosed _ scroll_stable)) as (e1 & E1 & C1 & _).
     { exists i, L. split; [exact Hn|]. left. split; [reflexivity|apply xeqv_refl]. }
@@ -526,7 +526,7 @@ Inductive xmodelled : (XE -> res XE) -> (xstate -> Prop) -> Prop :=
 | xm_erase_column_to_start : xmodelled x_erase_column_to_start never
 | xm_erase_column_to_end : xmodelled x_erase_column_to_end never
 | xm_rotate_layer rtab : xmodelled (x_rotate_layer rtab) never
-| xm_scroll_area_whole up : xmodelled (x_scroll_area_whole up) never
+| xm_scroll_area_ud up : xmodelled (x_scroll_area_ud up) never
 | xm_delete_row : xmodelled x_delete_row never
 | xm_insert_row : xmodelled x_insert_row never
 | xm_delete_column : xmodelled x_delete_column never
@@ -542,7 +542,7 @@ Proof.
     x_set_font_sound, x_add_ansi_font_sound, x_replace_font_usage_sound, x_change_font_slot_sound, x_remove_font_sound,
     x_set_ice_mode_gen_sound, x_set_palette_mode_gen_sound, x_merge_layer_down_sound, x_anchor_layer_sound, x_paste_clipboard_data_sound,
     x_crop_rect_sound, x_crop_sound, x_resize_buffer_layers_sound, x_clear_selection_sound, x_add_selection_to_mask_sound,
-    x_inverse_selection_sound, x_enumerate_selections_sound, x_erase_selection_sound, x_rotate_layer_sound, x_scroll_area_whole_sound,
+    x_inverse_selection_sound, x_enumerate_selections_sound, x_erase_selection_sound, x_rotate_layer_sound, x_scroll_area_ud_sound,
     x_line_erase_sound, x_delete_row_sound, x_insert_row_sound, x_delete_column_sound, x_insert_column_sound].
   - eapply lift_edit_sound; [apply liftable_sound; exact Hl|exact H].
   - unfold x_flip_x in H. eapply lift_edit_sound; [apply api_flip_x_sound|exact H].
